@@ -41,6 +41,48 @@ CLAIMS = {
         "note": "trusted: as C14; the error KIND for misaligned/truncated is not fixed by the property: impl and model are compared modulo the kind (canon), the Spec admits any error",
         "technique": "Lean 4 proof (refinement of the scan to find? over the index range) + differential correspondence",
     },
+    "C18": {
+        "text": "Lean 4 theorems about the model of EFIMemoryMapTag::memory_areas / EFIMemoryAreaIter: accept_iff (accepted exactly for version 1, d >= 40, 8 | d, d | L, with L/d entries; everything else a controlled panic), desc_inside (the i-th descriptor is decoded from the 40 bytes at map offset i*d, aligned, inside the map), len_after (after k calls of next the reported length is entries - min(k, entries), by induction over the prefix). Tied to /repo by SWEEP cases over all descriptor sizes/versions/lengths with len()/size_hint() observed around every next(), dev+release, and checked against a Python transcription of the property on every case.",
+        "design": "DESIGN.md section 6 (C18)",
+        "note": "trusted: Lean kernel + propext/Classical.choice/Quot.sound; the hand-written model (Mb2.Tags/Mb2.Sweep) outside the generated cases; rustc layout/codegen, core::str::from_utf8 and CStr (modelled by Lean's ByteArray.validateUTF8 / first-NUL search, compared on generated inputs); the Python oracle (vlib/oracle.py) as independent transcription of the property; harness, guard pages",
+        "technique": "Lean 4 proof (decision logic + induction over iterator prefixes) + differential correspondence + property oracle on the implementation",
+    },
+    "C19": {
+        "text": "Lean 4 theorems about the model of ElfSectionsTag::sections / ElfSectionIter: open_iff (accepted exactly when n*es and (shndx+1)*es fit in the section bytes, else controlled panic), sec_at_ok (ELF32/ELF64 field decoding by entry size), iter_inside (by induction: all yielded sections are in-use entries inside the tag, in order, iteration ends normally, at most n items), iter_bad_size (entry size other than 40/64 panics). Tied to /repo by SWEEP cases (entry sizes, counts, present entries, string-table indices incl. u32-overflowing products, all raw type classes), dev+release, Python oracle.",
+        "design": "DESIGN.md section 6 (C19)",
+        "note": "trusted: Lean kernel + propext/Classical.choice/Quot.sound; the hand-written model (Mb2.Tags/Mb2.Sweep) outside the generated cases; rustc layout/codegen, core::str::from_utf8 and CStr (modelled by Lean's ByteArray.validateUTF8 / first-NUL search, compared on generated inputs); the Python oracle (vlib/oracle.py) as independent transcription of the property; harness, guard pages; section NAMES are excluded by the property itself",
+        "technique": "Lean 4 proof (induction over the remaining-sections counter) + differential correspondence + property oracle",
+    },
+    "C15": {
+        "text": "Lean 4 theorem cast_size: for ANY type descriptor (not only truthful ones) and any header kind, the modelled cast either panics or yields a view whose size equals the generic tag's in-memory size (= tag size rounded up to 8 for iterator-produced tags), at the same address (getTag_same_address); dst_truthful gives the size formula of truthful dynamically sized types. Tied to /repo by CAST cases: 27 user-defined types defined in the harness x all tag sizes 0..96, plus all built-in kinds x adversarial sizes.",
+        "design": "DESIGN.md section 6 (C15)",
+        "note": "trusted: Lean kernel + propext/Classical.choice/Quot.sound; the hand-written model (Mb2.Tags/Mb2.Sweep) outside the generated cases; rustc layout/codegen, core::str::from_utf8 and CStr (modelled by Lean's ByteArray.validateUTF8 / first-NUL search, compared on generated inputs); the Python oracle (vlib/oracle.py) as independent transcription of the property; harness, guard pages; ptr_meta fat-pointer construction is modelled",
+        "technique": "Lean 4 proof + differential correspondence over a family of user-defined types",
+    },
+    "C17": {
+        "text": "Lean 4 theorems: parse_spec (for any content bytes: text = bytes before the first NUL if valid UTF-8, MissingNul iff no NUL inside the declared content, Utf8 otherwise; text and terminator inside the content), roundtrip (for EVERY Lean String without NUL - valid UTF-8 by construction like &str - the stored content is s followed by exactly one NUL and parses back to s, whatever bytes follow). Tied to /repo by SWEEP over all strings of length 0..3 over an 8-symbol alphabet with NUL / letter in the padding, random longer byte strings incl. overlongs/surrogates, declared sizes cutting the content, and CTOR cases for the three constructors; Python oracle with Python's UTF-8 decoder as third opinion.",
+        "design": "DESIGN.md section 6 (C17)",
+        "note": "trusted: Lean kernel + propext/Classical.choice/Quot.sound; the hand-written model (Mb2.Tags/Mb2.Sweep) outside the generated cases; rustc layout/codegen, core::str::from_utf8 and CStr (modelled by Lean's ByteArray.validateUTF8 / first-NUL search, compared on generated inputs); the Python oracle (vlib/oracle.py) as independent transcription of the property; harness, guard pages; agreement of Lean's, Rust's and Python's notion of well-formed UTF-8 is sampled, not proved",
+        "technique": "Lean 4 proof (round trip over all Strings) + differential correspondence + property oracle",
+    },
+    "C05": {
+        "text": "Lean 4 theorems: dst_view_exact (for every variable-length kind with fixed part `base` and element size e: a typed view exists iff size >= base and (size-base) % e = 0, else controlled panic; then the tail has exactly (size-base)/e elements and the view spans the rounded tag), dst_extent_ends_at_size (base + n*e = size: no padding, nothing of the next tag), palette_inside (the indexed palette is handed out only inside the colour-info buffer). Tied to /repo by SWEEP over every kind x adversarial declared sizes with distinguishable neighbours, two poison fills, Python oracle on the extents the real code returned.",
+        "design": "DESIGN.md section 6 (C05)",
+        "note": "trusted: Lean kernel + propext/Classical.choice/Quot.sound; the hand-written model (Mb2.Tags/Mb2.Sweep) outside the generated cases; rustc layout/codegen, core::str::from_utf8 and CStr (modelled by Lean's ByteArray.validateUTF8 / first-NUL search, compared on generated inputs); the Python oracle (vlib/oracle.py) as independent transcription of the property; harness, guard pages; the header crate's information-request list is covered by the HSWEEP family of C11",
+        "technique": "Lean 4 proof + differential correspondence + extent oracle on the implementation",
+    },
+    "C04": {
+        "text": "Lean 4 theorems: getTag_first (the getter returns the first tag of the walk with the type number, nothing when the complete walk has none), layout_eq_spec / fixed_size_eq_spec (struct field lists transcribed from the Rust sources = the specification's offset tables), field_decodes (every plain accessor returns the little-endian value at the specified offset, no panic, inside the tag), efi_map_withheld, fb_unknown_type / fb_known_type (all type bytes), rsdp2_long_invalid. Tied to /repo by SWEEP over conformant regions of all 22 kinds (random = byte-marked fields, duplicates, orders), dev AND release; an independent Python oracle decodes every field (incl. VBE blocks, memory-map entries, colour info, RSDP validity, module ranges) from the raw bytes at the specification's offsets.",
+        "design": "DESIGN.md section 6 (C04)",
+        "note": "trusted: Lean kernel + propext/Classical.choice/Quot.sound; the hand-written model (Mb2.Tags/Mb2.Sweep) outside the generated cases; rustc layout/codegen, core::str::from_utf8 and CStr (modelled by Lean's ByteArray.validateUTF8 / first-NUL search, compared on generated inputs); the Python oracle (vlib/oracle.py) as independent transcription of the property; harness, guard pages; VBE / memory-map / RSDP / SMBIOS field tables are checked by the Python oracle and the correspondence, the Lean theorem covers the plain-field kinds",
+        "technique": "Lean 4 proof + differential correspondence + independent decoding oracle",
+    },
+    "C01": {
+        "text": "Lean 4 theorems that no modelled entry point can read outside its permitted extent: walk_no_fault, cast_no_fault, getTag_no_fault (never `oob`/`ub`), view_inside_tag (every typed view starts at the tag's aligned offset, spans exactly roundUp8(size) bytes, inside the tag area), fields_no_fault, mmap_area_inside, fb_byte_no_fault, byteSum_no_fault / rsdp2_no_fault, efi_no_fault, elf_no_fault, walk_bounded (termination bounds). Tied to /repo by SWEEP = load + every getter/accessor/iterator/Debug under catch_unwind on the adversarial streams, region flush against PROT_NONE pages (end and start placement), two poison fills, crash detection per case; the Python oracle checks that every returned extent lies inside the tag it came from. PARTIAL: which bytes the machine code loads is a runtime fact - the theorem is about the model; guard pages, poison and extents connect it to the binary.",
+        "design": "DESIGN.md section 6 (C01), section 9",
+        "note": "trusted: Lean kernel + propext/Classical.choice/Quot.sound; the hand-written model (Mb2.Tags/Mb2.Sweep) outside the generated cases; rustc layout/codegen, core::str::from_utf8 and CStr (modelled by Lean's ByteArray.validateUTF8 / first-NUL search, compared on generated inputs); the Python oracle (vlib/oracle.py) as independent transcription of the property; harness, guard pages; Debug output is observed as panic / no panic only",
+        "technique": "Lean 4 proof (no-fault theorems over a checked-read memory model) + differential correspondence + guard-page / poison detectors",
+    },
 }
 
 NOT_YET = "not yet claimed: the Lean model, theorems and correspondence check for this property are still being built (DESIGN.md section 12 gives the order); the technique applies and the property will be claimed"
